@@ -363,6 +363,17 @@ def key_params(kt, used):
     return nums.x.to_bytes(n, "big") + nums.y.to_bytes(n, "big")
 
 
+def expected_words(case, cc_row, im):
+    """flag word and meta data of an entry from the CONFIGURATION and the documented bit layout (hand transcribed:
+    type [3:0], core id [7:4], hash [10:8] (v1) / [11:8] (v2), encrypted bit 11 (v1) / 12 (v2), boot flags [30:16];
+    meta: start cpu [9:0], mu cpu [19:10], partition [27:20])"""
+    core = next(t for t, l in cc_row["core_ids"] if l == im["core"])
+    ty = next(t for t, l in (valid_image_types(cc_row, core) or [[3, "executable"]]) if l == im["type"])
+    h = {"sha256": 0, "sha384": 1, "sha512": 2}[im["hash"]]
+    flags = ty | core << 4 | h << 8 | (int(bool(im["enc"])) << (11 if case["ver"] == 1 else 12)) | im["boot"] << 16
+    return flags, im["cpu"] | im["mu"] << 10 | im["part"] << 20
+
+
 def parse_report(line):
     """`ok:` report of the compiled checker -> list of dicts."""
     out = []
@@ -536,8 +547,14 @@ def independent_ok(cx, case, binary, rep, ahab=None, report_to=None, finding=Non
         ok &= need(int(r["base"]) == k * csize, "container is not at its fixed offset", r["base"])
         imgs = [t.split(":") for t in r["imgs"].split(",") if t]
         ok &= need(len(imgs) == len(cc["images"]), "image count differs", len(imgs))
-        for t, im in zip(imgs, cc["images"]):
+        extras = [t.split(":") for t in r.get("extra", "").split(",") if t]
+        for j, (t, im) in enumerate(zip(imgs, cc["images"])):
             ok &= need((t[3] == "1") == bool(im["enc"]), "encrypted flag of an entry differs from the configuration", t)
+            if s is not None and j < len(extras):
+                wf, wm = expected_words(case, cx.rows[(case["family"], case["revision"])], im)
+                ok &= need(int(t[2]) == wf, "flag word of an entry in the binary differs from the configuration (documented bit layout)", (int(t[2]), wf))
+                ok &= need([int(x) for x in extras[j]] == [im["load"], im["entry"], wm],
+                           "load address / entry point / meta data in the binary differ from the configuration", (extras[j], [im["load"], im["entry"], wm]))
         if s is not None:
             ok &= need(int(r["sw"]) == cc["sw"] and int(r["fuse"]) == cc["fuse"], "sw/fuse version in the binary differ from the configuration",
                        (r["sw"], r["fuse"]))
@@ -611,7 +628,7 @@ def finding_for_tamper(inp, original, parsed):
     return None
 
 
-def tamper(cx, case, info, budget):
+def tamper(cx, case, info, budget, extra_picks=()):
     from spsdk.image.ahab.ahab_image import AHABImage
     s, rng = cx.s_tamper, cx.ck.rng
     binary, deks, row = info["binary"], info["deks"], info["row"]
@@ -621,7 +638,7 @@ def tamper(cx, case, info, budget):
     signed, images, hdru = authenticated_positions(case, binary, rep)
     reps = parse_report(rep)
     pools = [("signed", signed), ("image", images), ("hashfield", hdru)]
-    picks = []
+    picks = list(extra_picks)
     for name, ranges in pools:
         tot = sum(l for _, l in ranges)
         if not tot:
@@ -709,6 +726,16 @@ def vlines(case, ahab, overlap_ok, allow_empty_hash=False):
 
 def _set(attr):
     return lambda o, v: setattr(o, attr, v)
+
+
+def _bits(n):
+    return lambda v: 0 <= v < (1 << n)
+
+
+# attribute -> "is this value legal for the field" (documented widths); the verifier must report exactly the illegal ones
+LEGAL = {"c.flags": _bits(32), "c.sw_version": _bits(16), "c.fuse_version": _bits(8), "e.load_address": _bits(64),
+         "e.entry_point": _bits(64), "e.image_meta_data": _bits(32), "e.flags": _bits(32), "blob.key_identifier": _bits(32),
+         "blob.mode": _bits(8)}
 
 
 PERTURB = [
@@ -827,6 +854,10 @@ def verify_stream(cx, nper):
                     cmp(cerrs, ans[-2], "AHABContainer.verify() has errors iff the model's container verifier has")
                 if errs is not None:
                     cmp(errs, ans[-1], "AHABImage.verify() has errors iff the model's verifier has")
+            if name in LEGAL and cerrs is not None:
+                s.expect(bool(cerrs) == (not LEGAL[name](value)), inp,
+                         "AHABContainer.verify() does not report an out-of-range field value (or reports a value that fits its field)",
+                         sorted(set(x.rsplit("/", 1)[-1] for x in cerrs)), "clean" if LEGAL[name](value) else "an ERROR record")
             errs = errs if errs is not None else (cerrs or [])
             # the property's own statement for the values that are LEGAL: in-range extreme values are never reported
             if name == "none":
@@ -967,7 +998,7 @@ def run(ck):
     verify_stream(cx, ck.budget(1, 12))
     combos = [(r, tm) for r in rows_l for tm in TARGET_MEMS]
     rng.shuffle(combos)
-    extra = ck.budget(40, 2500)
+    extra = ck.budget(40, 1500)
     n = 0
     infos = []
     for row, tm in combos:
@@ -986,11 +1017,11 @@ def run(ck):
             infos.append((case, info))
     # ---------------- tampering
     if drv is not None:
-        per = ck.budget(9, 30)
+        per = ck.budget(9, 18)
         pool = [ci for ci in infos if ci[1].get("check_ok")]
         rng.shuffle(pool)
         pool.sort(key=lambda ci: -sum(1 for c in ci[0]["containers"] if c["srk"]))      # signed ones first
-        for case, info in pool[: ck.budget(45, 1500)]:
+        for case, info in pool[: ck.budget(45, 500)]:
             tamper(cx, case, info, per)
     ck.extra["distribution"] = cx.dist
     ck.extra["flips"] = cx.flips
@@ -1007,13 +1038,23 @@ def replay(ck, data):
     cx.dist = {"containers": {}, "images": {}, "srk": {}}
     cx.flips = 0
     cx.finding_for_tamper = finding_for_tamper
-    cx.s_export = ck.stream("export", "replay")
-    cx.s_tamper = ck.stream("tamper", "replay")
-    for i, c in enumerate(data.get("cases", [])):
-        inp = c["input"]
+    cx.s_export = ck.stream("export", "replay of the recorded configurations")
+    cx.s_tamper = ck.stream("tamper", "replay of the recorded flips (+ a fresh sample on the same image)")
+    stream = data.get("stream")
+    if stream in ("verify_range", "fields") or data.get("kind") != "concrete-failure-on-implementation":
+        # perturbation / small-function streams are cheap and deterministic for a seed: run them again completely
+        cx.s_verify = ck.stream("verify_range", "replay: the complete perturbation sweep")
+        cx.s_fields = ck.stream("fields", "replay: the complete small-function sweep")
+        fields_stream(cx)
+        verify_stream(cx, 1)
+    for i, c in enumerate(data.get("cases", []) + [{"input": d.get("input")} for d in data.get("disagreements", [])]):
+        inp = c.get("input")
+        if isinstance(inp, list) and inp and isinstance(inp[0], dict):      # (case, op, k) of a compared query
+            inp = inp[0]
         case = inp.get("case", inp) if isinstance(inp, dict) else None
         if not isinstance(case, dict) or "containers" not in case:
             continue
+        case = json.loads(json.dumps(case), object_hook=lambda d: int(d["int"]) if set(d) == {"int"} else d)
         info = run_case(cx, case, f"r{i}")
         if info and isinstance(inp, dict) and "flip" in inp and cx.drv is not None:
-            tamper(cx, case, info, 6)
+            tamper(cx, case, info, 6, extra_picks=[(inp.get("class", "signed"), inp["flip"][0], inp["flip"][1])])
